@@ -54,6 +54,10 @@ func checkC02(c *Ctx) {
 			entries = append(entries, fi)
 		}
 	}
+	// NIL-DECODE
+	c.Decides("NIL-DECODE: pointers filled by encoding/xml / encoding/json (nil when the element is absent or null) are dereferenced, and elements of decoded slices of pointers are used, only under a successful nil test")
+	np := c.nilDecode("NIL-DECODE", []string{"io/phyloxml", "io/nextstrain"}, clauseP)
+	c.Extra["decoded_pointer_uses"] = np
 	// RECUR
 	nrec := 0
 	inReader := map[string]bool{}
@@ -135,6 +139,7 @@ func checkC02(c *Ctx) {
 	}
 	c.Floor("EOFLOOP", 40)
 	c.Floor("RECUR", 2)
+	c.Floor("NIL-DECODE", 2)
 	c.Floor("GO-CLOSE", 1)
 	c.Floor("ERRFLOW", 5)
 	c.Floor("CONTROL", 4)
